@@ -178,7 +178,55 @@ def voteset_slice(ctx):
     ctx.log('voteset slice: %d behaviours replayed, assembled commits re-verified' % rep['traces'])
 
 
+FS_KEYS = ('tampered-block-stored', 'seen-commit-unjustified')
+
+
+def fastsync_slice(ctx):
+    """A block that fast sync STORES is a committed block too: behaviours of FastSync.tla (edge cover of the model-checked
+    state graph of configuration q: two peers, one of them serving tampered blocks with correct linkage, reports, deliveries,
+    disconnects, timeouts) are replayed on the real BlockchainReactor / BlockPool; of the driver's oracles the two that
+    concern this property count here - every block in the syncing node's store is the source chain's block, and its stored
+    seen-commit is a +2/3 commit for exactly that block.  (The other oracles are C13's.)"""
+    from . import c13
+    engine.build_go(ctx, ['fastsync'])
+    quick = ctx.tier == 'quick'
+    r = engine.tlc_check(ctx, c13.SPEC, c13.MOD, c13.CFGS['q'][0], name='FastSync/c02-q', dump=True, workers=4, timeout=900)
+    traces = []
+    if r.violation or r.error or not r.scratch:
+        ctx.inconclusive.append('FastSync.tla (c02 slice): %s' % (r.violation or r.error))
+    else:
+        g = tlc.parse_dot(os.path.join(r.scratch, 'graph.dot'), drop_vars=c13.DROP)
+        paths, cov, want = tlc.edge_cover_paths(g, ctx.rng, max_len=26, max_paths=60 if quick else 300)
+        for k, p in enumerate(paths):
+            t = c13.trim(tlc.path_to_steps(g, c13.settle(g, p)))
+            if not t['steps']:
+                continue
+            t['cfg'] = c13.tcfg('q', k + ctx.seed)
+            t['id'] = 'c02-fastsync-q-%d' % k
+            traces.append(t)
+    tlc.cleanup(r)
+    if not traces:
+        ctx.inconclusive.append('fast-sync slice: no behaviour to replay')
+        return
+    traces.sort(key=lambda t: (-c13.applied(t), t['id']))
+    rep = engine.run_driver(ctx, 'fastsync', traces, timeout=3000, env={'VERIF_FS_WORKERS': '6' if quick else '8'})
+    other = [f for f in (rep.get('failures') or []) if (f.get('key') or '') not in FS_KEYS]
+    rep['failures'] = [f for f in (rep.get('failures') or []) if (f.get('key') or '') in FS_KEYS]
+    engine.collect(ctx, rep, traces, 'fastsync')
+    ctx.cov['fastsync_slice'] = {'behaviours': rep['traces'], 'steps': rep['steps'], 'blocks_applied': sum(c13.applied(t) for t in traces),
+                                 'other_divergences_ignored': len(other)}
+    ctx.log('fast-sync slice: %d behaviours replayed, stored blocks and seen-commits compared with the source chain' % rep['traces'])
+
+
 def run(ctx, replay=None):
+    if replay is not None and replay.get('engine') == 'fastsync':
+        engine.build_go(ctx, ['fastsync'])
+        rep = engine.run_driver(ctx, 'fastsync', [replay['trace']], env={'VERIF_FS_WORKERS': '1'})
+        rep['failures'] = [f for f in (rep.get('failures') or []) if (f.get('key') or '') in FS_KEYS]
+        engine.collect(ctx, rep, [replay['trace']], 'fastsync')
+        ctx.cov['traces_validated_against_impl'] = 1
+        ctx.cov['states'] = ctx.cov['transitions'] = max(1, len(replay['trace']['steps']))
+        return
     if replay is not None and replay.get('engine') == 'voteset':
         engine.build_go(ctx, ['voteset'])
         rep = engine.run_driver(ctx, 'voteset', [replay['trace']], timeout=900)
@@ -318,6 +366,7 @@ def run(ctx, replay=None):
     ctx.log('byz: %d blocks in %d systems, counters %s' % (n_byz_blocks, brep['traces'], brep.get('counters')))
 
     voteset_slice(ctx)
+    fastsync_slice(ctx)
     ctx.cov['traces_validated_against_impl'] = rep['traces'] + brep['traces'] + crep['traces']
     ctx.cov['evaluations'] = rep['checks'] + brep['checks'] + crep['checks']
     ctx.cov['impl_checks'] = {'mbt': rep['checks'], 'byz': brep['checks'], 'chain': crep['checks']}
